@@ -104,8 +104,78 @@ def forced_schedule(k, j=None):
     return bad
 
 
+# ------------------------------------------------------------------ order independence over literals that Python treats as equal
+ORDER_FILTERS = ['v == true', 'v == 1', 'v == 1.0', 'v != true', 'v != 1', 'v == false', 'v == 0', 'v != 0', 'v != false', 'v >= 1', 'v >= true',
+                 'v < 1', 'v < true', 'v == "a"', 'v == `a`', 'v == @a', 'v != "a"', 'v != `a`', 'v == 1m', 'v != 1m', 'v == "1"', 'v == 2020-01-01',
+                 'v == 1 and w == true', 'v == true and w == 1', 'w == 1 or v == true', 'not v', 'v', 'v == 0.0', 'v == -0.0', 'v == 1e0']
+
+_ORDER_CODE = r'''
+import sys, json, io, contextlib
+sys.path.insert(0, sys.argv[1])
+buf = io.StringIO()
+with contextlib.redirect_stdout(buf):
+    import hszinc
+    from hszinc import Grid, Uri, Ref, Quantity
+    import datetime
+    g = Grid(version='3.0', columns={'id': {}, 'v': {}, 'w': {}})
+    vals = [True, 1, 1.0, 0, False, 0.0, 'a', Uri('a'), Ref('a'), Quantity(1, 'm'), '1', datetime.date(2020, 1, 1), 2.0, None]
+    for i, v in enumerate(vals):
+        row = {'id': 'r%d' % i, 'w': vals[(i + 1) % 6]}
+        if v is not None:
+            row['v'] = v
+        g.append(row)
+    out = []
+    for f in json.loads(sys.argv[2]):
+        try:
+            out.append([r['id'] for r in g.filter(f)])
+        except Exception as e:
+            out.append('ERR %s' % type(e).__name__)
+print('RES ' + json.dumps(out))
+'''
+
+
+def _run_order(filters):
+    import json
+    import os
+    import subprocess
+    repo = os.environ.get('HV_REPO', '/repo')
+    p = subprocess.run([sys.executable, '-c', _ORDER_CODE, repo, json.dumps(filters)], capture_output=True, text=True, timeout=120)
+    for line in p.stdout.splitlines():
+        if line.startswith('RES '):
+            return json.loads(line[4:])
+    raise RuntimeError('order run failed: %s' % p.stderr[-400:])
+
+
+def order_independence(seed):
+    """each filter alone in a fresh process (= the first filter ever used) against the same filter after the others, in three orders"""
+    import random
+    from concurrent.futures import ThreadPoolExecutor
+    with ThreadPoolExecutor(8) as ex:
+        alone = list(ex.map(lambda f: _run_order([f])[0], ORDER_FILTERS))
+    bad, cases = [], len(ORDER_FILTERS)
+    rnd = random.Random(seed)
+    orders = [list(range(len(ORDER_FILTERS))), list(reversed(range(len(ORDER_FILTERS))))]
+    o = list(range(len(ORDER_FILTERS)))
+    rnd.shuffle(o)
+    orders.append(o)
+    for order in orders:
+        seq = [ORDER_FILTERS[i] for i in order] * 2            # second pass: everything is cached by then
+        got = _run_order(seq)
+        cases += len(seq)
+        for pos, f in enumerate(seq):
+            want = alone[ORDER_FILTERS.index(f)]
+            if got[pos] != want:
+                bad.append({'filter': f, 'before': seq[:pos][-6:], 'what': 'filter %r selects %r as the first filter ever used but %r after %d other filters (last: %r)'
+                            % (f, want, got[pos], pos, seq[:pos][-3:])})
+    return bad, cases
+
+
 def bounded(tier, seed):
     failures, cases = [], 0
+    bad, n0 = order_independence(seed)
+    cases += n0
+    for b in bad[:4]:
+        failures.append({'id': 'C13/order/%s' % b['filter'], 'what': b['what'], 'input': {'kind': 'order', 'seed': seed}})
     n = 1200 if tier == 'quick' else 1600
     cases += n
     bad = history(n, 97)
@@ -122,13 +192,16 @@ def bounded(tier, seed):
             if len(failures) < 10:
                 failures.append({'id': 'C13/schedule/%d/%s' % (k, j), 'what': b, 'input': {'kind': 'schedule', 'k': k, 'j': j}})
     return {'cases': cases, 'failures': failures,
-            'bound': '%d distinct filters across the cache capacity with re-use of early ones; two threads under forced schedules A:k lines / B:j lines / A finishes / B finishes (k, j < 16 line events inside the functions touching the shared state: every such schedule)' % n}
+            'bound': 'order independence: %d filters over literals that Python treats as equal (true/1/1.0, false/0/0.0/-0.0, "a"/`a`/@a, 1/1m), each alone in a fresh process vs after the others in three orders, twice; ' % len(ORDER_FILTERS) + '%d distinct filters across the cache capacity with re-use of early ones; two threads under forced schedules A:k lines / B:j lines / A finishes / B finishes (k, j < 16 line events inside the functions touching the shared state: every such schedule)' % n}
 
 
 def replay(inp):
     if inp.get('kind') == 'history':
         bad = history(inp.get('n', 1200), inp.get('reuse_every', 97))
         return {'reproduced': bool(bad), 'detail': bad[:2]}
+    if inp.get('kind') == 'order':
+        bad, _ = order_independence(inp.get('seed', 0))
+        return {'reproduced': bool(bad), 'detail': [b['what'] for b in bad[:2]]}
     if inp.get('kind') == 'schedule':
         bad = forced_schedule(inp.get('k', inp.get('switch_after', 1)), inp.get('j'))
         return {'reproduced': bool(bad), 'detail': bad[:2]}
